@@ -53,6 +53,10 @@ def o1_update(ctx, role, lvl, n, frames=1, tr=None, first=None, relay=False):
                 ctx.assume(s_or(to == 0o100, to == addr))
         radio.inject_rx(ctx.int("pipe%d" % f if frames > 1 else "pipe", 0, 5), blist(payload))
         payloads.append(payload)
+        if f == 1 and isinstance(first, list) and len(first) > 2:
+            # quick tier: the second frame is one the node discards (invalid origin or destination) - everything else arbitrary
+            h2 = header_of(payload)
+            ctx.assume(s_or(s_not(NS.valid_or_multicast(h2["to_node"])), s_not(NS.valid_or_multicast(h2["from_node"]))))
         if tr is not None and n >= 8:  # the exploration is split over message-type ranges (parallelism only)
             ctx.assume(s_and(payload[6] >= tr[0], payload[6] <= tr[1]))
     t0, sent0 = clock.now, len(radio.sent)
@@ -100,8 +104,8 @@ def o2_valid(ctx, kind):
 def jobs(tier):
     out = []
     if tier == "quick":
-        plan = {"routing": {0: (0, 7, 8, 10), 1: (8,), 3: (10,)}, "net": {0: (32,), 2: (1, 8, 10), 4: (9,)},
-                "mesh": {1: (8, 10), 2: (32,), 4: (7, 8)}, "master": {0: (0, 7, 8, 9, 10, 32)}}
+        plan = {"routing": {0: (0, 7, 8, 10), 1: (8,), 3: (10,)}, "net": {0: (32,), 2: (1, 8), 4: (9,)},
+                "mesh": {1: (8,), 2: (32,), 4: (7,)}, "master": {0: (0, 7, 8, 9, 10, 32)}}
     else:
         plan = {r: {l: range(0, 33) for l in ((0,) if r == "master" else range(0 if r != "mesh" else 1, 5))} for r in ROLES}
     for role in ROLES:
@@ -115,7 +119,9 @@ def jobs(tier):
     for t in (195, 194, 1):
         out.append(Job("O1-update-two-frames", o1_update, dict(role="master", lvl=0, n=8, frames=2, first=t), cost=400, shards=6))
     # ... and an address request relayed from a level-2 node (the reply awaits a NETWORK_ACK: the second frame is read meanwhile)
-    out.append(Job("O1-update-two-frames", o1_update, dict(role="master", lvl=0, n=8, frames=2, first=[195, 0o12]), cost=400, shards=6))
+    out.append(Job("O1-update-two-frames", o1_update, dict(role="master", lvl=0, n=8, frames=2,
+                                                           first=[195, 0o12] + (["discarded-second"] if tier == "quick" else [])),
+                   cost=400, shards=(8 if tier == "quick" else 16)))
     if tier == "thorough":
         for role in ROLES:
             out.append(Job("O1-update-two-frames", o1_update, dict(role=role, lvl=0 if role == "master" else 2, n=8, frames=2, first="consumed"),
@@ -127,7 +133,7 @@ def jobs(tier):
 
 META = {
     "bounds": {"quick": "O1: 4 roles, 3 levels each (symbolic digits), payload lengths from {0,1,7,8,9,10,12,32} (six on the master), all payload bytes "
-                        "symbolic, pipe symbolic, one symbolic outcome per transmitted packet, master with 2 arbitrary leases; on the master also two-frame sequences whose first frame is a multicast-addressed frame of type 195 / 194 / 1 from 0o4444, or an address request relayed from 0o12 (symbolic id / reserved), and whose second frame is arbitrary; "
+                        "symbolic, pipe symbolic, one symbolic outcome per transmitted packet, master with 2 arbitrary leases; on the master also two-frame sequences whose first frame is a multicast-addressed frame of type 195 / 194 / 1 from 0o4444, or an address request relayed from 0o12 (symbolic id / reserved), and whose second frame is arbitrary (after the relayed request: any frame the node discards); "
                         "O2: a symbolic in [-65536, 131072] and None",
                "thorough": "every length 0..32; two-frame sequences on every role whose first frame is addressed to the multicast address or the node itself"},
     "outside": ["sequences of more than 2 frames; two-frame sequences whose first frame is routed elsewhere (update() returns after it)", "lease tables with more than 2 entries (C16 goes to 5)",
